@@ -24,6 +24,9 @@ func init() {
 			{"SETID-SORTED", ruleSetIDSorted},
 			{"NORMALISE-IDENTITY", ruleNormaliseIdentity},
 			{"SETID-NO-OVERWRITE", ruleSetIDNoOverwrite},
+			{"RECURSION-RESULT", func(c *eng.Ctx) {
+				ruleRecursionResult(c, "RECURSION-RESULT", []string{"internal/db", "internal/db/...", "client", "client/..."})
+			}},
 			{"SCHEMA-SHAPE-LOCAL", ruleSchemaShapeLocal},
 			{"DOCID-VERIFY", ruleDocIDVerify},
 		},
